@@ -218,20 +218,56 @@ func init() {
 // checkHelperContract: fn is (*Store).Write or Update. The callback parameter is called with a batch B;
 // every commit of B happens only on the branch where the callback returned nil; and some commit of B exists.
 func checkHelperContract(c *Ctx, fn *ssa.Function) {
-	p := c.P
-	name := qname(fn)
-	c.saw(name)
 	if len(fn.Params) < 2 {
-		c.und("helper-contract", name, p.Pos(fnPos(fn)), "unexpected signature")
+		c.saw(qname(fn))
+		c.und("helper-contract", qname(fn), c.P.Pos(fnPos(fn)), "unexpected signature")
 		return
 	}
-	cb := fn.Params[1]
+	checkHelperContractAt(c, fn, 1, qname(fn), 0)
+}
+
+// checkHelperContractAt: the callback is parameter cbIdx of fn. If fn only forwards the callback to a same-package
+// function whose result it returns, that function is checked in its place (the obligation keeps the name of the API method).
+func checkHelperContractAt(c *Ctx, fn *ssa.Function, cbIdx int, name string, depth int) {
+	p := c.P
+	c.saw(qname(fn))
+	cb := fn.Params[cbIdx]
 	var cbCalls []*ssa.Call
 	allInstrs(fn, func(in ssa.Instruction) {
 		if call, ok := in.(*ssa.Call); ok && call.Call.Value == cb {
 			cbCalls = append(cbCalls, call)
 		}
 	})
+	if len(cbCalls) == 0 && depth < 2 {
+		for _, s := range sitesOf(fn) {
+			if s.Callee == nil {
+				continue
+			}
+			g := s.Callee
+			if g.Origin() != nil {
+				g = g.Origin()
+			}
+			if len(g.Blocks) == 0 || pkgRelOf(g) != pkgRelOf(fn) {
+				continue
+			}
+			for k, a := range s.Args() {
+				if a != ssa.Value(cb) || k >= len(g.Params) {
+					continue
+				}
+				// the helper's result must be what fn returns
+				forwarded := false
+				for _, r := range returnsOf(fn) {
+					if len(r.Results) > 0 && r.Results[len(r.Results)-1] == s.Instr.(ssa.Value) {
+						forwarded = true
+					}
+				}
+				if forwarded {
+					checkHelperContractAt(c, g, k, name, depth+1)
+					return
+				}
+			}
+		}
+	}
 	if len(cbCalls) != 1 {
 		c.und("helper-contract", name, p.Pos(fnPos(fn)), fmt.Sprintf("callback is called %d times (expected exactly once)", len(cbCalls)))
 		return
